@@ -68,6 +68,7 @@ STORE_DOMAIN = collections.OrderedDict([
     ("fit param E value", [None, 77, 0.5]),
     ("fit param E vary", [None, False, True]),
     ("fit param contact_point value", [None, 0.0, -1e-7]),
+    ("fit param nu value", [None, 0, 0.3]),
 ])
 SKEYS = list(STORE_DOMAIN)
 
@@ -375,7 +376,7 @@ def menus():
     m["model"] = [str(i + 1) for i in range(len(model_list()))]
     # values inside the bounds of every model that has the parameter
     vals = {"E": ["2500", "1e4"], "R": ["5e-6", "2e-5"],
-            "alpha": ["10", "25"], "nu": ["0.3", "0.5"],
+            "alpha": ["10", "25"], "nu": ["0", "0.3", "0.5"],
             "contact_point": ["0", "-1.5e-7", "1e-6"],
             "baseline": ["0", "-1e-10", "1e-9"]}
     for p in ("E", "R", "alpha", "nu", "contact_point", "baseline"):
